@@ -1,16 +1,27 @@
 #!/bin/sh
-# usage: tools/retest_seeds.sh [worktree]  -- re-applies every kept seed to a scratch worktree at /repo's HEAD and re-runs the
-# quick check of its property; prints one line per seed (regression test of the checks themselves)
-WT="${1:-/tmp/seed/rev}"
-git -C /repo worktree add --detach "$WT" HEAD >/dev/null 2>&1
-git -C "$WT" checkout -q --detach "$(git -C /repo rev-parse HEAD)"
-for d in /verif/seeded/*/; do
-  id=$(basename "$d"); pid=$(echo "$id" | cut -c1-3)
-  git -C "$WT" checkout -q -- .
-  if ! git -C "$WT" apply "$d/patch.diff" 2>/dev/null; then echo "$id skipped (patch does not apply to HEAD)"; continue; fi
-  out=$(cd /verif && VERIF_REPO="$WT" ./check "$pid" --tier quick 2>&1 | grep "^VIOLATION property=$pid\|^HARNESS" | head -1)
-  was=$(python3 -c "import json;print(json.load(open('$d/meta.json')).get('detected_by_check'))")
-  case "$out" in VIOLATION*) now=yes;; HARNESS*) now=harness-error;; *) now=no;; esac
-  echo "$id recorded=$was now=$now"
-done
-git -C "$WT" checkout -q -- .
+# usage: tools/retest_seeds.sh [worktree-prefix] [shards]  -- re-applies every kept seed to a scratch worktree at /repo's HEAD and
+# re-runs the quick check of its property; prints one line per seed (regression test of the checks themselves). `shards` worktrees
+# <prefix>0 .. <prefix>N-1 work in parallel; they are removed at the end.
+PFX="${1:-/tmp/seed/rt}"; N="${2:-3}"
+HEAD=$(git -C /repo rev-parse HEAD)
+shard() {
+  k="$1"; WT="$PFX$k"
+  git -C /repo worktree add --detach "$WT" "$HEAD" >/dev/null 2>&1
+  git -C "$WT" checkout -q --detach "$HEAD"
+  i=0
+  for d in /verif/seeded/*/; do
+    i=$((i+1)); [ $((i % N)) -eq "$k" ] || continue
+    id=$(basename "$d"); pid=$(echo "$id" | cut -c1-3)
+    git -C "$WT" checkout -q -- .
+    if ! git -C "$WT" apply "$d/patch.diff" 2>/dev/null; then echo "$id skipped (patch does not apply to HEAD)"; continue; fi
+    out=$(cd /verif && VERIF_REPO="$WT" ./check "$pid" --tier quick 2>&1 | grep "^VIOLATION property=$pid\|^HARNESS" | head -1)
+    was=$(python3 -c "import json;print(json.load(open('$d/meta.json')).get('detected_by_check'))")
+    case "$out" in VIOLATION*) now=yes;; HARNESS*) now=harness-error;; *) now=no;; esac
+    echo "$id recorded=$was now=$now"
+  done
+  git -C /repo worktree remove --force "$WT" >/dev/null 2>&1
+}
+k=0
+while [ "$k" -lt "$N" ]; do shard "$k" & k=$((k+1)); done
+wait
+git -C /repo worktree prune
